@@ -130,9 +130,11 @@ def fresh_process_pool():
     process_pool_registry._pool_executor = ProcessPoolExecutor(3, mp_context=CTX)
 
 
-def run_job(job, pools_ok):
+def run_job(job, pools_ok, cache=None):
+    """cache: {program name: (runtime, chart)} - the SAME chart object is run again (harness/pools.py)"""
     prog = job['prog']
-    rt = RealRuntime()
+    reuse = cache.get(prog['name']) if cache is not None else None
+    rt = reuse[0] if reuse else RealRuntime()
     rnd = random.Random(job.get('seed', 0))
     jit = {}
 
@@ -143,13 +145,19 @@ def run_job(job, pools_ok):
         return jit[key]
     rt.reset(None, {1: prog['runs'][0]}, virtual=False, collab=None, jitter=jitter)
     rt.virtual = False
+    rt.seqlines = []
     rt.start_reader()
-    chart, dag, classes = programs.build_chart(prog, rt)
-    mod = sys.modules.get('verif_generated')
-    if mod is None:
-        mod = sys.modules['verif_generated'] = types.ModuleType('verif_generated')
-    for cls in classes.values():
-        setattr(mod, cls.__name__, cls)
+    if reuse:
+        chart = reuse[1]
+    else:
+        chart, dag, classes = programs.build_chart(prog, rt)
+        mod = sys.modules.get('verif_generated')
+        if mod is None:
+            mod = sys.modules['verif_generated'] = types.ModuleType('verif_generated')
+        for cls in classes.values():
+            setattr(mod, cls.__name__, cls)
+        if cache is not None:
+            cache[prog['name']] = (rt, chart)
     if pools_ok and any(n['mode'] == 'process' for n in prog['nodes']):
         fresh_process_pool()
 
